@@ -530,7 +530,10 @@ impl AnnotationStore {
                     "Inserting dataitem failed (AnnotationStore.annotate)",
                 )
             })?;
-            data.push((datasethandle, datahandle));
+            //the same data may be passed more than once (or resolve to the same deduplicated item), an annotation holds it only once
+            if !data.contains(&(datasethandle, datahandle)) {
+                data.push((datasethandle, datahandle));
+            }
         }
 
         // Has the caller set a public ID for this annotation?
